@@ -1,7 +1,10 @@
 # C05: wrappers around the independent reference implementations available in the sandbox
-# (OpenSSL 3.5 smime/cms/ts/dgst, JDK 17 jarsigner + javax.xml.crypto, GnuPG gpgv/gpg, dpkg-deb, ar, unzip, xmllint).
+# (OpenSSL >= 3.0 smime/cms/ts/dgst, JDK 17 jarsigner + javax.xml.crypto, GnuPG gpgv/gpg, dpkg-deb, ar, unzip; xmllint when present).
 # Every wrapper returns the command line it ran so that a replay names it exactly.
+# Nothing here may assume a particular tool version: what a tool can do is PROBED (Tools.probe_*) with material that does not come
+# from relic, and a sub-check whose tool is missing or fails its probe is skipped and listed in the evidence - never an alarm.
 import json, os, re, shutil, subprocess, threading
+import xml.parsers.expat
 from vlib.common import VERIF
 
 _uniq = [0]
@@ -42,6 +45,73 @@ class Tools:
         with open(self.java_props, "w") as f:
             f.write("jdk.jar.disabledAlgorithms=MD2, MD5, RSA keySize < 1024\njdk.certpath.disabledAlgorithms=MD2, MD5\njdk.security.legacyAlgorithms=\n")
         self.available = {t: have(t) for t in ("openssl", "jarsigner", "java", "javac", "gpgv", "gpg", "dpkg-deb", "ar", "unzip", "xmllint")}
+        self.versions = {}
+        self.caps = {}          # capability name -> {"ok": bool, "probe": what was tried, "output": tool output}
+        self.caplock = threading.Lock()
+        if self.available["openssl"]:
+            rc, out, err = run(["openssl", "version"])
+            self.versions["openssl"] = out.decode(errors="replace").strip()
+        for tool, cmd in (("java", ["java", "-version"]), ("gpgv", ["gpgv", "--version"]), ("dpkg-deb", ["dpkg-deb", "--version"])):
+            if self.available.get(tool):
+                rc, out, err = run(cmd, timeout=60)
+                self.versions[tool] = ((out.decode(errors="replace") + err).strip().splitlines() or [""])[0]
+
+    # ------------------------------------------------------------------ capability probes
+    def cap(self, name):
+        return self.caps.get(name, {"ok": False, "probe": "not probed", "output": ""})
+
+    def set_cap(self, name, ok, probe, output):
+        with self.caplock:
+            self.caps[name] = {"ok": bool(ok), "probe": probe, "output": (output or "").strip()[-400:]}
+        return ok
+
+    def probe_p7(self, ctype, blob, origin, content=None):
+        """can `openssl smime -verify` of the installed OpenSSL judge SignedData whose content type is `ctype`?  `blob` is a GENUINE
+        signature made by somebody else's implementation (Microsoft's signtool / OpenSSL itself).  OpenSSL 3.0/3.1 digest the wrong
+        octets when the content is not an OCTET STRING (Authenticode SpcIndirectDataContent, catalog CTL) and reject Microsoft's own
+        signatures with 'digest failure'; such a tool cannot be the judge of relic's."""
+        name = "openssl-smime-verify:" + ctype
+        if not self.available["openssl"]:
+            return self.set_cap(name, False, origin, "openssl not installed")
+        if blob is None:
+            return self.set_cap(name, False, origin, "no genuine third-party sample available for this content type")
+        ok, got, err, cmd = self.p7_verify(blob, content)
+        return self.set_cap(name, ok, "%s through `%s`" % (origin, " ".join(cmd[:8])), "accepted" if ok else err)
+
+    def probe_cms(self, blob, origin, content=None):
+        name = "openssl-cms-verify:data"
+        if not self.available["openssl"]:
+            return self.set_cap(name, False, origin, "openssl not installed")
+        ok, got, err, cmd = self.cms_verify(blob, content)
+        return self.set_cap(name, ok, "%s through `%s`" % (origin, " ".join(cmd[:8])), "accepted" if ok else err)
+
+    def openssl_sign_data(self, keyfile, certfile, data):
+        """a PKCS#7 SignedData over id-data made by OpenSSL itself (probe material for the id-data verification paths)"""
+        dp, outp = self.put(data, ".data"), self.tmp(".p7")
+        rc, out, err = run(["openssl", "smime", "-sign", "-binary", "-nodetach", "-in", dp, "-signer", certfile, "-inkey", keyfile, "-outform", "DER", "-out", outp, "-md", "sha256"])
+        blob = open(outp, "rb").read() if rc == 0 and os.path.exists(outp) else None
+        for p in (dp, outp):
+            if os.path.exists(p):
+                os.unlink(p)
+        return blob, err
+
+    # ------------------------------------------------------------------ XML well-formedness
+    def xml_wellformed(self, path):
+        """well-formedness by expat (python's xml.parsers.expat: an XML parser that shares nothing with relic's etree / encoding/xml);
+        xmllint as a second opinion when it is installed.  returns (ok, message, [cmds])"""
+        cmds = [["python3", "-c", "import sys,xml.parsers.expat as e; e.ParserCreate().Parse(open(sys.argv[1],'rb').read(), True)", path]]
+        try:
+            pr = xml.parsers.expat.ParserCreate()
+            pr.Parse(open(path, "rb").read(), True)
+            ok, msg = True, ""
+        except xml.parsers.expat.ExpatError as e:
+            ok, msg = False, "expat: %s" % e
+        if self.available.get("xmllint"):
+            rc, out, err = run(["xmllint", "--noout", path])
+            cmds.append(["xmllint", "--noout", path])
+            if rc != 0:
+                ok, msg = False, (msg + " xmllint: " + err[-200:]).strip()
+        return ok, msg, cmds
 
     def tmp(self, suffix):
         return os.path.join(self.dir, "t%d%s" % (uniq(), suffix))
